@@ -495,6 +495,7 @@ fn main() {
                     Some("scaled") => gen::scaled_program(&mut p),
                     Some("word") => gen::word_program(&mut p),
                     Some("layout") => gen::layout_program(&mut p),
+                    Some("sized") => gen::const_sized_program(&mut p),
                     _ => gen::const_arith_program(&mut p),
                 };
                 let a = analyse(&src, &mut p);
